@@ -81,6 +81,12 @@ Theorem C02_code_maps_address_the_given_key :
   take_wf Gen.LocalMap.AssetMap_take = true.
 Proof. exact maps_as_modelled. Qed.
 
+Theorem C02_code_keys_carry_the_id_as_given :
+  key_ctor_wf Gen.Private.BorrowedKey_new_with false = true /\ key_ctor_wf Gen.Private.BorrowedKey_new true = true /\
+  key_ctor_wf Gen.Private.OwnedKey_new_with false = true /\ key_ctor_wf Gen.Private.OwnedKey_new true = true /\
+  key_borrow_wf Gen.Private.OwnedKey_borrow = true /\ key_to_owned_wf Gen.Private.BorrowedKey_to_owned = true.
+Proof. exact keys_carry_the_id_as_given. Qed.
+
 (* two types under one id are two keys *)
 Example C02_types_are_separate_keys :
   let s := fst (run (init_st false)
